@@ -702,6 +702,10 @@ def install(I):
             return I.ret(st, Agg('Pin', (b,)))
         return I.ret(st, b)
 
+    @M(r'^<Box<(.*)> as From<\1>>::from$', 'Box<T>: From<T> (the boxing conversion `?` applies to a boxed error type)')
+    def m_box_from(I, st, f, args, fr):
+        return I.ret(st, BoxV(st.alloc(args[0]), 'Box'))
+
     @M(r'^Pin::<.*>::(new_unchecked|new)$|^Pin::(new_unchecked|new)$', 'Pin::new')
     def m_pin_new(I, st, f, args, fr):
         return I.ret(st, Agg('Pin', (args[0],)))
